@@ -301,6 +301,55 @@ def x7(ctx, rid):
     ctx.ok(rid, 'scan', '', '%d registration / removal pairs on shared collections in client-cancellable bodies, %d with a suspension point between' % (n, bad), nontrivial=False, queries=max(1, n))
 
 
+def x8(ctx, rid):
+    """a record whose write future was dropped between the append and the index push lies in the blob file but in no index; its
+    fate is settled at the next start.  In a running session an index is rebuilt from the blob file only because the index
+    file could not be loaded: every in-session call of try_regenerate_index is decided by the Err of IndexTrait::load and
+    nothing else (a consistency heuristic that triggers the rebuild would make the cancelled write appear later on)"""
+    prog = ctx.prog
+    n = 0
+    for f in prog.fns.values():
+        if f.file != 'src/blob/core.rs':
+            continue
+        root = prog.fns[f.id].root
+        if root.endswith('::from_file') or root.endswith('::try_regenerate_index'):
+            continue    # opening a blob at start-up: the next start is where cancelled writes are settled
+        for c in f.calls:
+            if c.bb not in f.reachable() or c.name != 'try_regenerate_index':
+                continue
+            n += 1
+            key = 'rebuild-only-on-load-error|%s' % root
+            gates, foreign = [], []
+            for sw in core.deciding_switches(f, c.bb):
+                kind, ty = core.switch_kind(f, sw)
+                if kind == 'try':
+                    continue
+                l = op_local(f.blocks[sw]['t']['o'])
+                srcs = []
+                for (bb, si, k, r) in f.defs().get(l, []):
+                    if k == 'assign' and r['k'] == 'discr':
+                        srcs += core.origins(f, r['p'][0])
+                    elif k == 'assign':
+                        srcs += core.origins(f, l)
+                    elif k == 'call':
+                        srcs += core.origins(f, l)
+                loads = [o for o in srcs if o.kind == 'call' and o.data.name == 'load' and 'IndexTrait' in o.data.path]
+                if srcs and len(loads) == len(srcs):
+                    gates.append(sw)
+                else:
+                    foreign.append((sw, [o for o in srcs if o not in loads]))
+            if gates and not foreign:
+                ctx.ok(rid, key, c.where(), 'decided by the result of IndexTrait::load only')
+            elif not gates and not foreign:
+                ctx.bad(rid, key, c.where(), 'an in-session rebuild of the index from the blob file is not conditional on a failed IndexTrait::load: '
+                        'records of cancelled writes (in the file, in no index) become visible in the running session')
+            else:
+                ctx.bad(rid, key, f.where(foreign[0][0]), 'an in-session rebuild of the index from the blob file also depends on %s: a check that fails '
+                        'on an unindexed tail makes the record of a cancelled write visible later in the session' % (foreign[0][1][:2] or 'another condition'))
+    if n < 1:
+        raise core.AnchorLost('in-session try_regenerate_index call sites: %d' % n)
+
+
 RULES = [
     Rule('C14.X1', 'reservation of a file offset and the OS write consuming it lie in non-coroutine bodies run by a blocking runner', x1, 4),
     Rule('C14.X2', 'no suspension point between the completed record append and its index push', x2, 2),
@@ -308,5 +357,6 @@ RULES = [
     Rule('C14.X5', 'a blob is published in the active slot only once its index is in memory (C04.T1 instances)', x5, 7),
     Rule('C14.X6', 'a short (empty / cut) index file left by an interrupted dump is regenerated at the next start (C03.I10 instance)', x6, 1),
     Rule('C14.X7', 'no shared-collection registration is undone by a plain statement after a suspension point in a client-cancellable body', x7, 1),
+    Rule('C14.X8', 'in a running session an index is rebuilt from the blob file only on the Err of loading the index file', x8, 1),
     Rule('C14.X4', 'no RAII guard whose Drop undoes a counter reservation is live across a suspension point of a client-cancellable future', x4, 1),
 ]
